@@ -23,6 +23,41 @@ struct alignas(32) Over
   bool operator<=(const Over &o) const { return v <= o.v; }
   bool operator>=(const Over &o) const { return v >= o.v; }
 };
+// trivially destructible payload whose constructors establish state that assignment relies on (like a vptr):
+// every operation checks that the object it is applied to was constructed.  Fresh heap memory is filled with
+// 0xbe by ASan, so storage that never held a Magic does not carry the stamp.
+struct Magic
+{
+  static constexpr uint32_t STAMP = 0xC0FFEE11u;
+  static int &errors()
+  {
+    static int e = 0;
+    return e;
+  }
+  uint32_t stamp;
+  int v;
+  Magic() : stamp(STAMP), v(0) {}
+  Magic(int x) : stamp(STAMP), v(x) {}
+  Magic(const Magic &o) : stamp(STAMP), v(o.v)
+  {
+    if (o.stamp != STAMP)
+      errors()++;
+  }
+  Magic &operator=(const Magic &o)
+  {
+    if (stamp != STAMP || o.stamp != STAMP)
+      errors()++;  // assignment applied to (or from) storage that holds no constructed object
+    v = o.v;
+    return *this;
+  }
+  bool operator==(const Magic &o) const { return v == o.v; }
+  bool operator!=(const Magic &o) const { return v != o.v; }
+  bool operator<(const Magic &o) const { return v < o.v; }
+  bool operator>(const Magic &o) const { return v > o.v; }
+  bool operator<=(const Magic &o) const { return v <= o.v; }
+  bool operator>=(const Magic &o) const { return v >= o.v; }
+};
+static_assert(std::is_trivially_destructible<Magic>::value, "Magic must be trivially destructible");
 struct VecFrom
 {
   int v = 0;
@@ -98,6 +133,16 @@ struct PT<Tracked>
   static const char *name() { return "tracked"; }
 };
 template <>
+struct PT<Magic>
+{
+  using U = int;
+  static Magic make(int v) { return Magic(v); }
+  static U makeU(int v) { return v; }
+  static long long back(const Magic &t) { return t.stamp == Magic::STAMP ? t.v : -12345; }
+  static void mutate(Magic &x, int v) { x.v = v; }
+  static const char *name() { return "magic(trivially-destructible)"; }
+};
+template <>
 struct PT<Over>
 {
   using U = int;
@@ -155,6 +200,7 @@ static void optional_case(const std::vector<Op> &ops, pbt::Ctx &ctx)
     long long v = 0;
   };
   pbt::treg().reset();
+  Magic::errors() = 0;
   {
     std::unique_ptr<Holder> slot[3];
     M m[3];
@@ -349,6 +395,7 @@ static void optional_case(const std::vector<Op> &ops, pbt::Ctx &ctx)
         (void)o.toString();
       }
       PBT_TRACKED_OK();
+      PBT_ASSERT_MSG(Magic::errors() == 0, "a payload operation was applied to storage that holds no constructed object (op kind " << kind << ")");
     }
     if (emptySource)
       ctx.label("empty-source");
@@ -398,6 +445,7 @@ static void register_properties()
   pbt::property<std::vector<Op>>("optional_vector", 1500, ops, optional_case<std::vector<int>>);
   pbt::property<std::vector<Op>>("optional_tracked", 3000, ops, optional_case<Tracked>);
   pbt::property<std::vector<Op>>("optional_overaligned", 1000, ops, optional_case<Over>);
+  pbt::property<std::vector<Op>>("optional_magic", 1500, ops, optional_case<Magic>);
   pbt::property<std::tuple<int, int, int>>("getenvvar", 300,
       rc::gen::tuple(pbt::range<int>(0, 2), pbt::range<int>(0, 1), pbt::range<int>(-1000, 1000)), envvar_case);
 }
